@@ -790,13 +790,19 @@ static void obsX(const XO& x, Obs& o) {
     case tMV: {
       auto& v = *(std::vector<Manifold>*)p;
       o.i("manifold_vec.length", v.size());
-      for (auto& e : v) obsX_M(e, o);
+      for (auto& e : v) {
+        Manifold copy(e);  // manifold_manifold_vec_get hands out a copy: mirror it (one more holder of the node)
+        obsX_M(copy, o);
+      }
       break;
     }
     case tCSV: {
       auto& v = *(std::vector<CrossSection>*)p;
       o.i("cross_section_vec.length", v.size());
-      for (auto& e : v) obsX_CS(e, o);
+      for (auto& e : v) {
+        CrossSection copy(e);
+        obsX_CS(copy, o);
+      }
       break;
     }
     case tTRI: {
@@ -1912,9 +1918,18 @@ static void rowsConstructorsInfo() {
     double twist, sx, sy;
   };
   for (Ex a : {Ex{2.5, 3, 40, 0.5, 0.25}, Ex{1, 0, 0, 1, 1}, Ex{1.5, 1, -30, 0, 0}})
-    add(NAME(manifold_extrude), F("height=%g,slices=%d,twist_degrees=%g,scale_x=%g,scale_y=%g", a.h, a.slices, a.twist, a.sx, a.sy), {tPS}, {tM},
-        [a](CW& c) { c.out(manifold_extrude(c.mem(tM), c.ps(0), a.h, a.slices, a.twist, a.sx, a.sy)); },
-        [a](XW& x) { x.out(Manifold::Extrude(x.ps(0), a.h, a.slices, a.twist, {a.sx, a.sy})); });
+    add(NAME(manifold_extrude), F("height=%g,slices=%d,twist_degrees=%g,scale_x=%g,scale_y=%g (if no empty contour)", a.h, a.slices, a.twist, a.sx, a.sy), {tPS}, {tM},
+        [a](CW& c) {
+          // Manifold::Extrude indexes into every contour: not with an empty contour inside the set (crashes in C++ too)
+          for (size_t i = 0, n = manifold_polygons_length(c.ps(0)); i < n; ++i)
+            if (manifold_polygons_simple_length(c.ps(0), i) == 0) return;
+          c.out(manifold_extrude(c.mem(tM), c.ps(0), a.h, a.slices, a.twist, a.sx, a.sy));
+        },
+        [a](XW& x) {
+          for (auto& sp : x.ps(0))
+            if (sp.empty()) return;
+          x.out(Manifold::Extrude(x.ps(0), a.h, a.slices, a.twist, {a.sx, a.sy}));
+        });
   struct Rv {
     int seg;
     double deg;
@@ -2596,25 +2611,34 @@ static void runC(const Prog& g, const RunOpts& o, Res& r) {
   if (!c.pending.empty()) r.fails.push_back(F("%zu storage blocks were handed to a constructor that never constructed into them", c.pending.size()));
 }
 
-static void runX(const Prog& g, Res& r) {
+// The C++ mirror keeps every object alive exactly as long as the C world does: the library flattens nested lazy Booleans only
+// when nobody else holds the operand (use_count), so the triangle ORDER of a result depends on which handles are still alive
+// when it is first evaluated.
+static void runX(const Prog& g, const RunOpts& o, Res& r) {
   XW x;
+  std::vector<XO> hold;  // objects of the first call that are not inputs of the second
   for (size_t i = 0; i < g.pin.size(); ++i) x.in.push_back(g_pool[g.P->in[i]][g.pin[i]].x());
   g.P->x(x);
   if (g.Q) {
     if ((int)x.outs.size() <= g.oSlot)
       r.noLink = true;
     else {
-      XO link = x.outs[g.oSlot];
       std::vector<XO> in2;
-      for (size_t i = 0; i < g.qin.size(); ++i) in2.push_back((int)i == g.jSlot ? link : g_pool[g.Q->in[i]][g.qin[i]].x());
-      x.in = in2;
+      for (size_t i = 0; i < g.qin.size(); ++i) in2.push_back((int)i == g.jSlot ? x.outs[g.oSlot] : g_pool[g.Q->in[i]][g.qin[i]].x());
+      for (auto& i : x.in) hold.push_back(std::move(i));
+      for (auto& i : x.outs) hold.push_back(std::move(i));
+      x.in = std::move(in2);
       x.outs.clear();
       g.Q->x(x);
     }
   }
   if (!r.noLink) {
     for (auto& i : x.in) obsX(i, r.ins);
-    for (auto& o : x.outs) obsX(o, r.outs);
+    if (o.early) {  // destroy every object that is not a result before the results are first observed
+      hold.clear();
+      x.in.clear();
+    }
+    for (auto& out : x.outs) obsX(out, r.outs);
   }
   r.scal = x.sc;
 }
@@ -2642,7 +2666,7 @@ static void judge(Ctx& c, const Prog& g, const RunOpts& o, bool leakPass) {
   } timer{now_s(), c, key};
   Res rx, rc;
   c.describe(key + " [in the C++ mirror]");
-  runX(g, rx);
+  runX(g, o, rx);
   c.describe(key + " [in the C calls]");
   runC(g, o, rc);
   c.count("programs");
